@@ -5,7 +5,7 @@ real System.simulate() (E2).  See DESIGN.md sections 2-4.
 import math
 
 from . import Violation, HarnessError
-from . import canon
+from . import canon, globalstate
 
 from simprocesd.model import System, EventType, Environment, ResourceManager
 from simprocesd.model.factory_floor import (Asset, Part, PartGenerator, Batch, PartHandler,
@@ -69,6 +69,16 @@ class HPartGen(PartGenerator):
         self.generated.append(p.id)
         return p
 
+    def _shape(self, shape, name):
+        '''int n -> Batch of n parts; list -> Batch whose members are the shapes in the list (nested batches).'''
+        b = Batch(name=name)
+        if isinstance(shape, int):
+            shape = [None] * shape
+        for i, sh in enumerate(shape):
+            nm = f'{name}.{i + 1}'
+            b.parts.append(self._leaf(nm) if sh is None else self._shape(sh, nm))
+        return b
+
     def generate_part_helper(self, part_name, part_counter):
         saved = Asset._id_counter
         Asset._id_counter = self.base + part_counter * 8 - 1
@@ -78,14 +88,9 @@ class HPartGen(PartGenerator):
                 item = self._leaf(part_name)
                 self.items.append([item.id])
             else:
-                assert 0 <= shape <= 7
-                item = Batch(name=part_name)
-                ids = []
-                for i in range(shape):
-                    p = self._leaf(f'{part_name}.{i + 1}')
-                    item.parts.append(p)
-                    ids.append(p.id)
-                self.items.append(ids)
+                item = self._shape(shape, part_name)
+                self.items.append(list(leaves(item)))
+                assert Asset._id_counter <= self.base + (part_counter + 1) * 8 - 1, 'id block of 8 exhausted'
         finally:
             Asset._id_counter = saved
         return item
@@ -302,14 +307,20 @@ class OpAction:
 
 class LineWorld:
     _canon_skip = ('spec', 'facts', 'last_tie_size', 'budget', 'mode', 'ops', 'horizon',
-                   'op_limits', 'positions', '_saved')
+                   'op_limits', 'positions', '_saved', '_gsaved', 'script')
 
     def __init__(self, spec, monitors=(), mode='e1'):
         self.spec = spec
         self.mode = mode
         self.horizon = spec['horizon']
         self.ops = [tuple(o) if not isinstance(o, tuple) else o for o in spec.get('ops', [])]
-        self.op_limits = spec.get('op_limits') or [None] * len(self.ops)
+        self.op_limits = list(spec.get('op_limits') or [None] * len(self.ops))
+        # scripted operations: part of the scenario (fixed time), not of the injection alphabet
+        self.script = []
+        for ent in spec.get('script', []):
+            self.ops.append(tuple(ent[2]))
+            self.op_limits.append(0)
+            self.script.append((ent[0], ent[1], len(self.ops) - 1))
         self.positions = tuple(spec.get('positions', ('pre', 'end', 'mid')))
         self.budget = spec.get('K', 0)
         self.used = [0] * len(self.ops)
@@ -320,9 +331,16 @@ class LineWorld:
         self.hub = Hub()
         self.monitors = list(monitors)
         self.id_counter = 0
-        self._build()
+        self.gvals = globalstate.fresh()
+        gs = globalstate.enter(self.gvals)
+        try:
+            self._build()
+        finally:
+            globalstate.leave(self.gvals, gs)
         for m in self.monitors:
             m.attach(self)
+        for t, prio, idx in self.script:
+            self.env.schedule_event(t, HARNESS_ID, OpAction(self, idx), prio, 'script')
         if mode == 'e1':
             self._enter()
             self._init_like_simulate()
@@ -331,6 +349,7 @@ class LineWorld:
     def __getstate__(self):
         d = dict(self.__dict__)
         d.pop('_saved', None)
+        d.pop('_gsaved', None)
         return d
 
     # ------------------------------------------------------------------ globals
@@ -340,6 +359,7 @@ class LineWorld:
         self._saved = (Asset._id_counter, System._instance)
         Asset._id_counter = self.id_counter
         System._instance = self.system
+        self._gsaved = globalstate.enter(self.gvals)
 
     def _leave(self):
         if self.mode == 'e2':
@@ -348,6 +368,8 @@ class LineWorld:
         self.id_counter = Asset._id_counter
         Asset._id_counter, System._instance = self._saved
         self._saved = None
+        globalstate.leave(self.gvals, self._gsaved)
+        self._gsaved = None
 
     # ------------------------------------------------------------------ build
     def _build(self):
@@ -547,6 +569,11 @@ class LineWorld:
         finally:
             self._leave()
 
+    def executed_op(self, ev):
+        '''The harness operation (injected or scripted) carried by an event, or None.'''
+        a = ev.action
+        return self.ops[a.idx] if isinstance(a, OpAction) else None
+
     def final(self):
         self._enter()
         try:
@@ -651,6 +678,7 @@ def run_e2(spec, monitor_factory, path, prefix_ok=False):
     saved = (Asset._id_counter, System._instance)
     Asset._id_counter = w.id_counter
     System._instance = w.system
+    gs = globalstate.enter(w.gvals)
     w.env.step = shim
     try:
         with _Quiet():
@@ -666,4 +694,5 @@ def run_e2(spec, monitor_factory, path, prefix_ok=False):
         w.env.__dict__.pop('step', None)
         w.id_counter = Asset._id_counter
         Asset._id_counter, System._instance = saved
+        globalstate.leave(w.gvals, gs)
     return w.digest().hex()
